@@ -494,6 +494,12 @@ def mon_c17(tr, drained=True):
             out.append(("counts:WaitCount", "STATE WaitCount=%d but %d live queued requests" % (s["W"], waiters), i))
         if s["K"] != len(s["keys"]):
             out.append(("counts:KeyCount", "STATE KeyCount=%d but %d live keys" % (s["K"], len(s["keys"])), i))
+        # "the keys' values are gone": a request on a key that did not exist before the step is shown no value
+        rq0 = st["req"]
+        if rq0 and st["before"] and rq0["key"] not in st["before"]["keys"]:
+            for rp in st["replies"]:
+                if rp["req"] == rq0["req"] and rp["data"] not in ("-", "nil"):
+                    out.append(("counts:value-of-removed-key-visible", "request %d is the first on key %d (the key did not exist) but its reply shows the value %s" % (rq0["req"], rq0["key"], rp["data"]), i))
         for rp in st["replies"]:
             g = tr.reqs.get(rp["req"])
             newpend = [h for k in s["keys"].values() for h in live_holders(k) if h["ack"] != 255]
